@@ -5,7 +5,9 @@ Lean two-frame cache model for request histories (forward, repeated, back and fo
 across midnight, whole-day jumps); `interp` weights, hour and hour fraction as observed in `get_var`, the metric
 index recovered from a grid with pairwise different cell sizes.  Oracle: served currents = time interpolation of
 the bracketing hourly fields (read back from the files, computed with scipy), equal to the stored field at whole
-hours, independent of the request history; every dataset handed out is the file of the requested day; finite
+hours, independent of the request history -- which includes the requests already made for the same time step (other
+depths, positions, sub-steps, particle counts and orders between two update() calls, a second Forcing object): every request is
+judged at its own position, on nodes and tabulated depths also against plain reads of the stored arrays; every dataset handed out is the file of the requested day; finite
 cell sizes (which are cell sizes of the file, along the right axis) and the depth of an existing cell at every
 position the grid reports as inside, for scalar-like and vector calls, with candidates on, next to and beyond
 the limits; `ll2xy` against the file's coordinate arrays (scalars and arrays); `z2k` (Grid and Forcing)
@@ -21,7 +23,13 @@ RULE = ("synthetic NorKyst-style daily files (1..3 days x 24 h, 6..9 x 6..9 x 4.
         "the integrators' sub-steps tstep in {0, 0.5, 1}, request histories forward / repeated / back-and-forth / around an hour "
         "boundary / across midnight / jumps of a whole day forth and back (same clock hour on another day); 0..6 positions per "
         "request anywhere in the grid including the outermost cells and on nodes; depths above the surface, at and between the "
-        "tabulated depths, below the last one; grid queries in batches of 0..7 positions on, next to and beyond the limits "
+        "tabulated depths, below the last one; per update() one request or (4 times out of 5) 2..4 requests for the same time step "
+        "without an update in between: same particles at other depths / a depth profile level by level / other horizontal "
+        "positions / the integrators' sub-steps (0, 1/2, 1/2, 1) with fixed particles or particles moved horizontally and "
+        "vertically in between / the identical request again / another number of particles / the same particles in another "
+        "order / particles on nodes at tabulated depths (answer = blend of stored numbers) / everything new / a second Forcing "
+        "object on the same files asked for another time in between; z2k four times in a row for arrays of one size "
+        "(random depths, tabulated depths in random order); grid queries in batches of 0..7 positions on, next to and beyond the limits "
         "(only those the grid reports as inside are judged); a grid with pairwise different cell sizes. Non-trivial: every request.")
 ASSUMPTIONS = ["pyproj's polar-stereographic transform is trusted (ll2xy is compared with the file's lon/lat arrays)",
                "scipy map_coordinates(order=1) is used by both the implementation and the oracle",
@@ -262,20 +270,57 @@ def run_set(ctx, G, drv, pend, r, spec):
             if c == "node": return float(ctx.rng.randrange(1, n - 1))
             return {"low_edge": 0.51, "low_node": 1.0, "high_node": n - 1.0, "high_edge": n - 0.51}[c]
 
-        for t, kind in ts:
-            forc.update(t)
-            tstep = ctx.rng.choice([0, 0.5, 1])
-            npts = ctx.rng.choice([3, 3, 3, 1, 6, 0])
-            x = np.array([pos(nx) for _ in range(npts)], dtype=float); y = np.array([pos(ny) for _ in range(npts)], dtype=float)
-            z = np.array([ctx.rng.choice(zs) for _ in range(npts)], dtype=float)
+        knots = [float(d) for d in first["depth"]]
+
+        def classify(got, a1, a2, qx, q, subsecond, others):
+            """(ok, predicate) for a served array against the two bracketing hourly fields sampled at the requested
+            position.  The known finding F-C13a explains exactly one wrong answer: the two *right* hourly fields
+            (sampled at the *requested* position) blended with mirrored weights.  Anything else (a field of another
+            hour, day or file; the fields sampled at the position of another request) is a different defect and is
+            reported under its own predicate."""
+            want = a1 * (1 - qx) + a2 * qx
+            ok = got.shape == want.shape and np.allclose(got, want, rtol=1e-9, atol=1e-12)
+            mirrored = a1 * qx + a2 * (1 - qx)
+            if ok or (got.shape == want.shape and np.allclose(got, mirrored, rtol=1e-9, atol=1e-12)):
+                pred = "C13.interp.whole_hour" if qx == 0 else "C13.interp.time_weights"
+            elif subsecond and got.shape == want.shape and (np.allclose(got, a1 * (1 - q) + a2 * q, rtol=1e-9, atol=1e-12)
+                                                             or np.allclose(got, a1 * q + a2 * (1 - q), rtol=1e-9, atol=1e-12)):
+                # the right fields, blended for the time with the half second of the sub-step dropped
+                pred = "C13.time.substep_truncated"
+            else:
+                pred = "C13.interp.wrong_fields"
+                # diagnosis only (the oracle has failed already): is it the answer for the position (some of x, y, z)
+                # of an earlier request of the same time step?
+                for (b1, b2) in others:
+                    if got.shape == b1.shape and (np.allclose(got, b1 * (1 - qx) + b2 * qx, rtol=1e-9, atol=1e-12)
+                                                  or np.allclose(got, b1 * qx + b2 * (1 - qx), rtol=1e-9, atol=1e-12)):
+                        pred = "C13.velocity.position_of_earlier_request"
+            return ok, pred, want
+
+        def request(fo, t, kind, x, y, z, tstep, seq=0, within="first", earlier=()):
+            """one judged call of velocity(); `earlier` = the requests already made since the last update()"""
+            npts = len(x)
             cs = dict(set=r, start=str(start), dt=dt, t=int(t), tstep=tstep, history=kind, x=x, y=y, z=z, storage=spec["storage"], pattern=spec["pattern_kind"])
-            ctx.case(key=(r, int(t), tstep, float(x[0]) if npts else None), nontrivial=True, sample=cs if len(pend) < 2 else None)
+            if seq or within != "first":
+                cs.update(request_of_step=seq, same_step=within,
+                          earlier_requests_since_update=[dict(x=e[0], y=e[1], z=e[2], tstep=e[3]) for e in earlier])
+            ctx.case(key=(r, int(t), tstep, float(x[0]) if npts else None) + ((seq, within, float(z[0]) if npts else None) if seq else ()),
+                     nontrivial=True, sample=cs if len(pend) < 2 else None)
             ctx.branch("history." + kind); ctx.branch("tstep=%s" % tstep); ctx.branch("velocity.npts=%d" % npts)
-            n_gets = len(forc.dbase.__dict__.get("_verif_gets", [])); n_vars = len(forc.dbase.__dict__.get("_verif_vars", []))
+            if seq:
+                ctx.branch("same_step." + within)
+                e = earlier[-1]
+                if len(e[2]) == npts and npts and not np.array_equal(e[2], z):
+                    ctx.branch("same_step.same_count_other_depths")
+                if len(e[2]) == npts and npts and not (np.array_equal(e[0], x) and np.array_equal(e[1], y)):
+                    ctx.branch("same_step.same_count_other_positions")
+                if len(e[2]) != npts:
+                    ctx.branch("same_step.other_count")
+            n_gets = len(fo.dbase.__dict__.get("_verif_gets", [])); n_vars = len(fo.dbase.__dict__.get("_verif_vars", []))
             try:
-                u, v = forc.velocity(x, y, z, tstep)
+                u, v = fo.velocity(x, y, z, tstep)
             except Exception as e:
-                ctx.oracle(False, "C13.velocity.raises", SITE + "::Forcing.velocity", "raised %r" % (e,), cs); continue
+                ctx.oracle(False, "C13.velocity.raises", SITE + "::Forcing.velocity", "raised %r" % (e,), cs); return
             # the time of the request is start + dt*(t + tstep); numpy's timedelta arithmetic keeps whole seconds only
             # (np.timedelta64(7, 's') * 0.5 is 3 s), which matters for an odd dt at the half step
             tsec = base + dt * t + int(dt * tstep)
@@ -286,28 +331,38 @@ def run_set(ctx, G, drv, pend, r, spec):
             if subsecond: ctx.branch("time.half_step_of_odd_dt")
             if q == 0: ctx.branch("time.whole_hour")
             k = np.interp(z, first["depth"], np.arange(nz))
+            # positions on nodes and depths of the table: the hourly field *at the requested position* is a stored
+            # number, read from the file's array without any interpolation code
+            plain = npts > 0 and bool(np.all(x == np.round(x)) and np.all(y == np.round(y)) and all(float(zz) in knots for zz in z))
+            if plain:
+                ctx.branch("velocity.all_on_nodes_and_tabulated_depths")
+                ii = np.round(x).astype(int); jj = np.round(y).astype(int); kk = np.array([knots.index(float(zz)) for zz in z], dtype=int)
             for name, got in (("u", u), ("v", v)):
                 got = np.asarray(got)
                 # packed files are served as float32 and map_coordinates answers in the type of its input; the blend is
                 # done in double precision (the weight is a float64), float32 -> float64 is exact
                 a1 = map_coordinates(field(name, tsec), (k, y, x), order=1, prefilter=False).astype(np.float64)
                 a2 = map_coordinates(field(name, tsec + 3600), (k, y, x), order=1, prefilter=False).astype(np.float64)
-                want = a1 * (1 - qx) + a2 * qx
-                ok = got.shape == want.shape and np.allclose(got, want, rtol=1e-9, atol=1e-12)
-                # the known finding F-C13a explains exactly one wrong answer: the two *right* hourly fields
-                # blended with mirrored weights.  Anything else (a field of another hour, day or file) is a
-                # different defect and is reported under its own predicate.
-                mirrored = a1 * qx + a2 * (1 - qx)
-                if ok or (got.shape == want.shape and np.allclose(got, mirrored, rtol=1e-9, atol=1e-12)):
-                    pred = "C13.interp.whole_hour" if qx == 0 else "C13.interp.time_weights"
-                elif subsecond and got.shape == want.shape and (np.allclose(got, a1 * (1 - q) + a2 * q, rtol=1e-9, atol=1e-12)
-                                                                 or np.allclose(got, a1 * q + a2 * (1 - q), rtol=1e-9, atol=1e-12)):
-                    # the right fields, blended for the time with the half second of the sub-step dropped
-                    pred = "C13.time.substep_truncated"
-                else:
-                    pred = "C13.interp.wrong_fields"
+                # (for the diagnosis of a failure) the same fields at the positions of the earlier requests of this
+                # step: any of x, y, z taken from the earlier request
+                others = []
+                for e in earlier:
+                    if len(e[2]) != npts or not npts: continue
+                    ke = np.interp(e[2], first["depth"], np.arange(nz))
+                    for (kq, yq, xq) in ((ke, y, x), (k, e[1], e[0]), (ke, e[1], e[0]), (ke, e[1], x), (ke, y, e[0]), (k, e[1], x), (k, y, e[0])):
+                        others.append((map_coordinates(field(name, tsec), (kq, yq, xq), order=1, prefilter=False).astype(np.float64),
+                                       map_coordinates(field(name, tsec + 3600), (kq, yq, xq), order=1, prefilter=False).astype(np.float64)))
+                ok, pred, want = classify(got, a1, a2, qx, q, subsecond, others)
                 ctx.oracle(ok, pred, SITE + "::interp",
                            "%s at %g s into the hour (q=%.6f): served %r, time interpolation of the bracketing hourly fields %r" % (name, texact % 3600, qx, got.tolist(), want.tolist()), cs)
+                if plain:
+                    # the same statement without scipy: stored numbers of the two hourly records, blended in time.
+                    # Exact reads (float32 -> float64 is exact); tolerance as above for the two-term blend.
+                    p1 = np.asarray(field(name, tsec)[kk, jj, ii], dtype=np.float64); p2 = np.asarray(field(name, tsec + 3600)[kk, jj, ii], dtype=np.float64)
+                    ok2, pred2, want2 = classify(got, p1, p2, qx, q, subsecond, [])
+                    ctx.oracle(ok2, pred2, SITE + "::interp",
+                               "%s at %g s into the hour (q=%.6f) on nodes i=%r j=%r levels %r: served %r, time interpolation of the stored values %r"
+                               % (name, texact % 3600, qx, ii.tolist(), jj.tolist(), kk.tolist(), got.tolist(), want2.tolist()), cs)
                 # history independence: a fresh database gives the same answer
                 fresh = G.Forcing(conf, grid); fresh.update(t)
                 u2, v2 = fresh.velocity(x, y, z, tstep)
@@ -326,16 +381,91 @@ def run_set(ctx, G, drv, pend, r, spec):
                 pend.append(("hour", drv.ask("nk.hour", I(tt)), (tt // 3600, tt % 3600), cs))
                 pend.append(("subtime", drv.ask("nk.subtime", I(start_s), I(dt), I(t), I(num2), I(2)), tt_us, cs))
             # the same against what the implementation itself computed: time and weight in get_var, hour in _get_var
-            gets = forc.dbase.__dict__.get("_verif_gets", [])[n_gets:]; vars_ = forc.dbase.__dict__.get("_verif_vars", [])[n_vars:]
+            gets = fo.dbase.__dict__.get("_verif_gets", [])[n_gets:]; vars_ = fo.dbase.__dict__.get("_verif_vars", [])[n_vars:]
             for (gname, gtime, gw) in gets:
                 ti = int(gtime.astype("datetime64[us]").astype("int64"))
                 ctx.eq("nk.time_of_step(get_var)", ti, tt_us, cs)
                 hours = [hh for (vn, hh, _) in vars_ if vn == gname]
                 if drv.available and len(hours) == 2:
                     pend.append(("hour_impl", drv.ask("nk.hour_us", I(ti)), (hours[0], hours[1], float(gw)), cs))
+
+        def draw(npts, what="any"):
+            """positions and depths of one request"""
+            if what == "nodes":
+                # on nodes the grid reports as inside (0.5 < x < n - 0.5) and at tabulated depths
+                return (np.array([float(ctx.rng.randrange(1, nx)) for _ in range(npts)], dtype=float),
+                        np.array([float(ctx.rng.randrange(1, ny)) for _ in range(npts)], dtype=float),
+                        np.array([ctx.rng.choice(knots) for _ in range(npts)], dtype=float))
+            return (np.array([pos(nx) for _ in range(npts)], dtype=float), np.array([pos(ny) for _ in range(npts)], dtype=float),
+                    np.array([ctx.rng.choice(zs) for _ in range(npts)], dtype=float))
+
+        twin = None         # a second Forcing object on the same files (its own database), asked in between
+        SAME_STEP = ["single", "single", "single", "depths", "depths", "profile", "positions", "substeps", "moving", "repeat",
+                     "counts", "permuted", "nodes", "mixed", "twin"]
+        for t, kind in ts:
+            forc.update(t)
+            tstep = ctx.rng.choice([0, 0.5, 1])
+            npts = ctx.rng.choice([3, 3, 3, 1, 6, 0])
+            x = np.array([pos(nx) for _ in range(npts)], dtype=float); y = np.array([pos(ny) for _ in range(npts)], dtype=float)
+            z = np.array([ctx.rng.choice(zs) for _ in range(npts)], dtype=float)
+            request(forc, t, kind, x, y, z, tstep)
+            # ---- further requests for the SAME time step (no update() in between): a caller probing several depths or
+            #      positions at one time, the integrators' sub-steps (0, 1/2, 1/2, 1) with fixed or moving particles,
+            #      the same particles in another order, another number of particles, a second Forcing object in between.
+            #      Every one of them is a request for a time, a position and a depth like any other.
+            mode = ctx.rng.choice(SAME_STEP)
+            ctx.branch("requests_per_update." + ("one" if mode == "single" else "several"))
+            if mode == "single":
+                continue
+            earlier = [(x, y, z, tstep)]
+            if mode in ("substeps", "moving"):
+                nexts = [0.5, 0.5, 1] if ctx.rng.random() < 0.5 else [ctx.rng.choice([0, 0.5, 1]) for _ in range(ctx.rng.randrange(1, 4))]
+            else:
+                nexts = [tstep if ctx.rng.random() < 0.6 else ctx.rng.choice([0, 0.5, 1]) for _ in range(ctx.rng.randrange(1, 4))]
+            lev = ctx.rng.randrange(nz)
+            for seq, ts2 in enumerate(nexts, 1):
+                x0, y0_, z0, _ = earlier[-1]
+                n0 = len(x0)
+                if mode == "depths":            # same particles, other depths
+                    x2, y2 = x0, y0_; z2 = np.array([ctx.rng.choice(zs) for _ in range(n0)], dtype=float)
+                elif mode == "profile":         # a depth profile at fixed horizontal positions, level by level
+                    lev = (lev + 1) % nz
+                    x2, y2 = x0, y0_; z2 = np.full(n0, knots[lev], dtype=float)
+                elif mode == "positions":       # same depths, other horizontal positions
+                    x2, y2, _z = draw(n0); z2 = z0
+                elif mode == "substeps":        # what the ladim integrators do: same particles at other sub-steps
+                    x2, y2, z2 = x0, y0_, z0
+                elif mode == "moving":          # an integrator that moves the particles (also vertically) between sub-steps
+                    x2 = np.clip(x0 + np.array([ctx.rng.uniform(-0.3, 0.3) for _ in range(n0)]), 0.51, nx - 0.51) if n0 else x0
+                    y2 = np.clip(y0_ + np.array([ctx.rng.uniform(-0.3, 0.3) for _ in range(n0)]), 0.51, ny - 0.51) if n0 else y0_
+                    z2 = z0 + np.array([ctx.rng.uniform(-8.0, 8.0) for _ in range(n0)]) if n0 else z0
+                elif mode == "repeat":          # literally the same request again
+                    x2, y2, z2, ts2 = x0, y0_, z0, earlier[-1][3]
+                elif mode == "counts":          # another number of particles
+                    x2, y2, z2 = draw(ctx.rng.choice([c for c in (0, 1, 2, 3, 6) if c != n0]))
+                elif mode == "permuted":        # the same particles in another order
+                    perm = list(range(n0)); ctx.rng.shuffle(perm); perm = np.array(perm, dtype=int)
+                    x2, y2, z2 = x0[perm], y0_[perm], z0[perm]
+                elif mode == "nodes":           # on nodes and at tabulated depths: the answer is a blend of stored numbers
+                    x2, y2, z2 = draw(n0 if n0 else 3, "nodes")
+                elif mode == "twin":            # another Forcing object is asked for another time, position and depth in between
+                    if twin is None: twin = G.Forcing(conf, grid)
+                    t_other = ctx.rng.randrange(0, max_t + 1)
+                    twin.update(t_other)
+                    xt, yt, zt = draw(n0)
+                    request(twin, t_other, kind, xt, yt, zt, ctx.rng.choice([0, 0.5, 1]), seq=0, within="twin_object")
+                    x2, y2, z2 = draw(n0)
+                else:                           # everything new, same number of particles
+                    x2, y2, z2 = draw(n0)
+                x2 = np.array(x2, dtype=float); y2 = np.array(y2, dtype=float); z2 = np.array(z2, dtype=float)
+                request(forc, t, kind, x2, y2, z2, ts2, seq=seq, within=mode, earlier=tuple(earlier))
+                earlier.append((x2, y2, z2, ts2))
+            ctx.branch("same_step.requests=%d" % len(earlier))
         # ---- the cache: hourly fields and datasets of this Forcing's database
         reads = forc.dbase.__dict__.get("_verif_vars", [])
         dsets = forc.dbase.__dict__.get("_verif_dsets", []) + grid.dbase.__dict__.get("_verif_dsets", [])
+        if twin is not None:
+            dsets = dsets + twin.dbase.__dict__.get("_verif_dsets", [])
         for dstr, hit, fp in dsets:
             # fields come from the file of the requested day
             ctx.oracle(dstr in paths and os.path.abspath(fp) == os.path.abspath(paths[dstr]), "C13.dset.wrong_file", SITE + "::OnlineDatabase.get_dset",
@@ -391,6 +521,26 @@ def run_set(ctx, G, drv, pend, r, spec):
         ctx.case(key=("z2k", who, r), nontrivial=True)
         ctx.oracle(bool(np.all(np.diff(kk) >= 0)), "C13.z2k.not_monotone", SITE + "::%s.z2k" % who, "level index not monotone in depth", dict(set=r, who=who))
         ctx.oracle(np.array_equal(obj.z2k(first["depth"]), np.arange(nz)), "C13.z2k.not_exact_at_knots", SITE + "::%s.z2k" % who, "not exact at the tabulated depths", dict(set=r, who=who))
+        # several conversions in a row for arrays of one size with different contents (a depth profile asked level by
+        # level, particles that have moved): monotone also *between* the calls, exact at the tabulated depths in any order
+        seen_z = np.zeros(0); seen_k = np.zeros(0)
+        for rep in range(4):
+            ctx.case(key=("z2k_repeated", who, r, rep), nontrivial=True); ctx.branch("z2k.same_size_other_values")
+            zq = np.array([ctx.rng.uniform(-5.0, 1.2 * float(first["depth"][-1])) for _ in range(nz)])
+            perm = list(range(nz)); ctx.rng.shuffle(perm); perm = np.array(perm, dtype=int)
+            cz = dict(set=r, who=who, call=rep, z=zq, earlier_z=seen_z)
+            kq = np.asarray(obj.z2k(zq), dtype=float)
+            kp = np.asarray(obj.z2k(first["depth"][perm]))
+            ctx.oracle(kp.shape == perm.shape and np.array_equal(kp, perm), "C13.z2k.not_exact_at_knots", SITE + "::%s.z2k" % who,
+                       "tabulated depths %r (levels %r) converted to %r" % (first["depth"][perm].tolist(), perm.tolist(), kp.tolist()), dict(cz, z=first["depth"][perm]))
+            if kq.shape != zq.shape:
+                ctx.oracle(False, "C13.z2k.shape", SITE + "::%s.z2k" % who, "levels of shape %r for %d depths" % (kq.shape, nz), cz); continue
+            seen_z = np.concatenate([seen_z, zq]); seen_k = np.concatenate([seen_k, kq])
+            if kp.shape == perm.shape:          # the tabulated depths take part in the comparison
+                seen_z = np.concatenate([seen_z, first["depth"][perm]]); seen_k = np.concatenate([seen_k, np.asarray(kp, dtype=float)])
+            order = np.argsort(seen_z, kind="stable")
+            ctx.oracle(bool(np.all(np.diff(seen_k[order]) >= 0)), "C13.z2k.not_monotone", SITE + "::%s.z2k" % who,
+                       "level index not monotone in depth over %d calls: depths %r -> levels %r" % (rep + 1, seen_z[order].tolist(), seen_k[order].tolist()), cz)
 
 
 def run_irregular(ctx, G, drv, pend, r, tmp):
